@@ -1,6 +1,6 @@
 //! C14: scores form a total order matching game-theoretic preference.
 
-use crate::report::Collector;
+use refmodel::report::Collector;
 use chess_engine::Score;
 use refmodel::json::obj;
 use refmodel::rng::{fnv, mix3, Rng};
